@@ -191,8 +191,19 @@ fn start(cfg: &Cfg, root: &Path, link: Option<&PathBuf>, errfile: &Path) -> Resu
         r.fh = Some(fh);
         Ok(r)
     } else {
-        let mut l = Logger::with(LogSpecification::trace())
-            .log_to_file(file_spec(cfg, root))
+        let l0 = Logger::with(LogSpecification::trace());
+        // "fw": the default channel is the file AND a writer (log_to_file_and_writer), a second file writer in a
+        // sibling directory; everything else as with log_to_file
+        let l0 = if cfg.fw {
+            let w = FileLogWriter::builder(FileSpec::default().directory(root.join("addw")).basename("w").suppress_timestamp())
+                .format(fmt_plain)
+                .try_build()
+                .map_err(|e| format!("{e:?}"))?;
+            l0.log_to_file_and_writer(file_spec(cfg, root), Box::new(w))
+        } else {
+            l0.log_to_file(file_spec(cfg, root))
+        };
+        let mut l = l0
             .format_for_files(fmt_plain)
             .write_mode(write_mode(cfg))
             .cleanup_in_background_thread(cfg.bg)
